@@ -43,7 +43,7 @@ pub(crate) fn any_token<const N_ADDR: usize>() -> ConnectToken {
         server_addresses,
         client_to_server_key: kani::any(),
         server_to_client_key: kani::any(),
-        private_data: [0x11; 1024],
+        private_data: [0x11; crate::NETCODE_CONNECT_TOKEN_PRIVATE_BYTES],
         timeout_seconds: kani::any(),
     }
 }
@@ -383,7 +383,7 @@ fn cl_progress() {
     let pid = c.connect_token.protocol_id;
     let mut buf = [0u8; 400];
     let ts: u64 = kani::any();
-    let p = Packet::Challenge { token_sequence: ts, token_data: [9u8; 300] };
+    let p = Packet::Challenge { token_sequence: ts, token_data: [9u8; NETCODE_CHALLENGE_TOKEN_BYTES] };
     let r = p.encode(&mut buf, pid, Some((5, &key)));
     let n = match &r {
         Ok(n) => *n,
